@@ -104,8 +104,12 @@ def case_size(c):
 
 def strip_case(c):
     """the replayable part of a case (inputs only)"""
-    return {"id": c["id"], "kind": c["kind"], "class": c.get("class", ""), "items": c.get("items") or [], "blbls": c.get("blbls") or [],
-            "batches": [[{k: e.get(k) for k in ("fp", "lbls", "ts", "msg", "v", "err")} for e in b or []] for b in c["batches"] or []]}
+    r = {"id": c["id"], "kind": c["kind"], "class": c.get("class", ""), "items": c.get("items") or [], "blbls": c.get("blbls") or [],
+         "spans": c.get("spans") or [], "traces": c.get("traces") or [],
+         "batches": [[{k: e.get(k) for k in ("fp", "lbls", "ts", "msg", "v", "err")} for e in b or []] for b in c["batches"] or []]}
+    if c.get("with"):
+        r["with"] = strip_case(c["with"])      # the request served inside every write of this one
+    return r
 
 
 def describe(c):
@@ -234,12 +238,37 @@ def run_encoders(ck):
                             "and 0..4 points, scalar, error message; list endpoints (tempo tags / tag values, labels, series): 0..7 byte strings of the same "
                             "classes, stored label documents valid / strconv.Quote-style / truncated; tempo trace / search: 0..6 spans or traces with random "
                             "names, attributes of every kind, events, status; "
+                            "overlapping requests: the Prometheus, tempo and (one in four) row cases are observed a second time while another request of "
+                            "the same family is served inside every Write / before every received chunk is copied (GOMAXPROCS 1: pooled streams are reused); "
                             "non-trivial = >=2 series, >=3 rows, >=2 batches (row encoders), >=2 series or points (Prometheus), >=2 items (list and "
                             "splicing endpoints); distinct by kind+body. ")
     ck.extra["input_classes"] = hist
     ck.extra["input_distribution"] = {"kinds": kinds, "classes": hist}
     ck.extra["go_rows_checked"] = sum(1 for c in ok_cases if c["gorows"] == "ok")
     ck.add_samples([describe(c) for c in cases[:3]])
+
+
+POOL_DIRS = ["reader/controller", "reader/service"]
+POOL_ALLOW = set()      # "file:func" entries judged harmless by hand (none)
+
+
+def run_pool_order(ck):
+    """generated obligation: nothing is used after it was handed back to a pool (source order, go/ast)"""
+    import vcheck
+    if not ck.go_build("poolorder"):
+        ck.obligation("poolorder builds", False, ck.build_out[-800:])
+        return
+    rc, out = ck.go_run("poolorder", [os.path.join(vcheck.REPO, d) for d in POOL_DIRS])
+    try:
+        res = json.loads(out.strip().splitlines()[-1])
+    except Exception:
+        ck.obligation("poolorder ran", False, out[-800:])
+        return
+    bad = [v for v in res["violations"] if "%s:%s" % (os.path.basename(v["file"]), v["func"]) not in POOL_ALLOW]
+    ck.extra["pool_order"] = {"files": res["files"], "explicit_give_back_sites": res["sites"], "deferred": res["deferred"]}
+    ck.obligation("pool order: no pooled stream (or slice of its Buffer()) is used after it was given back, in %s (%d explicit + %d deferred sites)"
+                  % (", ".join(POOL_DIRS), res["sites"], res["deferred"]), not bad and res["sites"] + res["deferred"] > 0,
+                  "; ".join("%s:%d %s: %s" % (os.path.relpath(v["file"], vcheck.REPO), v["line"], v["func"], v["what"]) for v in bad[:5]))
 
 
 def run(ck):
@@ -249,4 +278,5 @@ def run(ck):
         "C15: Go map iteration order is read back from the body (accepted only when it is a permutation of the input keys)",
     ]
     ck.coq_props()
+    run_pool_order(ck)
     run_encoders(ck)
